@@ -63,7 +63,7 @@ func init() {
 			d := Pick(r, []int{0, 1, 5, 30, 58, 59, 60, 61, 62, 63, 64, 65, 100, 124, 125, 126, 127, 128, 129, 200, 300})
 			skip := 1 + r.Intn(4)
 			if r.Chance(1, 6) {
-				skip = d + r.Intn(8) // around and beyond the bottom of the stack
+				skip = max(1, d+r.Intn(8)) // around and beyond the bottom of the stack (never 0: see above)
 			}
 			depth := r.Intn(2)
 			_, outer := trCaptureRun(d, skip, depth)
